@@ -104,8 +104,18 @@ PROPPATCH = (b'<?xml version="1.0"?><D:propertyupdate xmlns:D="DAV:"><D:set><D:p
              b'</D:prop></D:set></D:propertyupdate>')
 
 
+# UIDs that read as paths: the server must never derive a file name from them unescaped
+EVIL_UIDS = ["../../../../decoy/pwn", "../../../esc", "../../../../datax/pwn", "/tmp-like/abs", "a/../../../../decoy/x",
+             "..%2F..%2F..%2F..%2Fdecoy%2Fpwn", "..", ".git/hooks/post-commit"]
+
+
 def body_for(rng, method, prefix):
     if method == "PUT" or method == "POST":
+        if rng.random() < 0.35:
+            uid = rng.choice(EVIL_UIDS)
+            if rng.random() < 0.6:
+                return {"Content-Type": "text/calendar"}, vevent(uid)
+            return {"Content-Type": "text/vcard"}, vcard("A", uid=uid)
         if rng.random() < 0.5:
             return {"Content-Type": "text/calendar"}, vevent("u%d" % rng.randint(1, 3))
         return {"Content-Type": "text/vcard"}, vcard("A")
@@ -160,6 +170,10 @@ def server_audit(chk, n_requests):
                     if method == "OPTIONS" and chk.rng.random() < 0.7:
                         method = chk.rng.choice(["MKCOL", "MKCALENDAR", "DELETE", "PUT"])
                     target = gen_target(chk.rng, prefix)
+                    if method == "POST" and chk.rng.random() < 0.6:
+                        # add-member on a collection that exists: the server picks the member's name
+                        target = prefix.rstrip("/") + chk.rng.choice(["/user/calendars/calendar/", "/user/contacts/addressbook/",
+                                                                         "/user/calendars/calendar"])
                     hdrs, body = body_for(chk.rng, method, prefix)
                     REC["events"] = []
                     REC["on"] = True
@@ -188,6 +202,14 @@ def server_audit(chk, n_requests):
                         ap = os.path.abspath(p) if not os.path.isabs(p) else p
                         if not ap.startswith(scratch):
                             continue
+                        if os.path.normpath(ap) == root and ev in ("os.rmdir", "os.remove", "os.unlink", "os.rename", "os.replace",
+                                                                   "shutil.rmtree", "shutil.move", "os.chmod", "os.symlink"):
+                            chk.violation(f"C13:root-directory-itself-modified:{method}@{fe}",
+                                          f"{method} {target} via {fe} made {ev}({p!r}): the data root itself, not something "
+                                          f"beneath it",
+                                          {"level": "http", "frontend": fe, "prefix": prefix, "method": method,
+                                           "target": target, "event": ev, "path": p,
+                                           "headers": hdrs, "body": body.decode("latin-1")})
                         if not lexically_inside(ap, root):
                             chk.violation(f"C13:fs-access-outside-root:{method}@{fe}",
                                           f"{method} {target} via {fe} made {ev}({p!r}) outside the root {root}",
